@@ -1338,6 +1338,10 @@ func (ctx *RenderContext) getAttribute(obj interface{}, attr string) (interface{
 			return nil, nil
 		}
 		// (a map keyed by interface{} holds the attribute under the plain string)
+		// (a key type that a string cannot be, e.g. an interface with methods, holds no attribute)
+		if !reflect.TypeOf(attr).ConvertibleTo(objValue.Type().Key()) {
+			return nil, nil
+		}
 		value := objValue.MapIndex(reflect.ValueOf(attr).Convert(objValue.Type().Key()))
 		if value.IsValid() && value.CanInterface() {
 			return value.Interface(), nil
@@ -2029,7 +2033,7 @@ func (ctx *RenderContext) ToString(val interface{}) string {
 		if rv.IsNil() {
 			return ""
 		}
-		if rv.Elem().Kind() != reflect.Struct && rv.Elem().CanInterface() {
+		if rv.Elem().Kind() != reflect.Struct && rv.Elem().CanInterface() && !containsItself(rv, 0, nil) {
 			return ctx.ToString(rv.Elem().Interface())
 		}
 	}
